@@ -116,6 +116,21 @@ theorem searchGraphD_subgraph (zero eps top : P) (dist : Int → Int → P) (arg
   have : v.toNat = v' := by omega
   rw [this]; exact hor
 
+/-- **Edges stay inside the connected components of the neighbour graph** (what `connect_graph`'s restricted search
+relies on, `C20.restricted_search_stays_in_component`): for every labelling that is constant along the entries of the
+neighbour graph — e.g. the component labels `scipy.sparse.csgraph.connected_components` computes for its
+symmetrisation — both endpoints of every search-graph edge carry the same label, whatever the draws. -/
+theorem searchGraphD_edges_within_components (zero eps top : P) (dist : Int → Int → P) (argsort : List P → List Nat)
+    (m : Nat) (N : List (List (Ent P))) (draw1 draw2 : Nat → Nat → Bool) (comp : Nat → Nat)
+    (hcomp : ∀ (a : Nat) (b : Int), Lists N a b → 0 ≤ b → comp b.toNat = comp a)
+    (u : Nat) (v : Int) (h : (u, v) ∈ searchGraphD zero eps top dist argsort m N draw1 draw2) :
+    comp v.toNat = comp u := by
+  have hv := (searchGraphD_no_self_loops zero eps top dist argsort m N draw1 draw2 u v h).2.1
+  rcases searchGraphD_subgraph zero eps top dist argsort m N draw1 draw2 u v h with h1 | h2
+  · exact hcomp u v h1 hv
+  · have := hcomp v.toNat (u : Int) h2 (by omega)
+    simpa using this.symm
+
 /-- **Subgraph of the symmetrised neighbour graph** (`diversify_prob = 1`): every edge `(u, v)`
 joins two points of which at least one lists the other in the neighbour graph (`Lists N u v`: the
 stored row of `u` holds an entry with index `v`). -/
